@@ -54,7 +54,7 @@ PROPERTIES = {
         not_decided=['idempotence / round trip as theorems (they depend on ipaddress, the idna codec and the composition of all lemmas): bounded only'],
     ),
     'C17': dict(
-        modules=['ftp'], level='proof',
+        modules=['ftp'], level='proof', bounded=['c17_session.py'],
         claim='Command.to_bytes returns one line [^\\r\\n]*\\r\\n without NUL for every name/argument text, or raises ProtocolError (a per-URL error); '
               'ControlStream.write_command puts exactly that one line on the wire and reports the same bytes; Reply.parse (regex translated with Python\'s '
               'backtracking priorities) completes a reply exactly on a line "NNN<space>..." and takes the code from it; read_reply consumes whole lines only, '
@@ -108,7 +108,8 @@ PROPERTIES = {
               'invariants over symbolic read lengths (= every segmentation), notified-delta == consumed-delta on normal exit -- except that a length-delimited '
               'body reports exactly Content-Length bytes and closes the connection on overrun; write_request reports exactly the bytes it writes; '
               'Session.start performs one write_request and one read_response on a fresh stream, with the read listener registered before the first response '
-              'byte is read and the write listener spanning exactly the request; the recorder session appends event data verbatim to the block files. '
+              'byte is read and the write listener spanning exactly the request; the recorder session appends event data verbatim to the block files, and at the end of a request / response hands the record to write_record with the block '
+              'file at its first byte, digests on or off (end_request, end_response, _record_revisit, set_length_and_maybe_checksums, set_content_length). '
               'BOUNDED (labelled): the real Stream under all <=2-cut segmentations versus a reference decoder.',
         note='assumed: Connection.read/readline/write (asyncio StreamReader below them), DataEventDispatcher delivers each notification once to every listener, '
              'temp files append, @close_stream_on_error transparent; the response record block = the temp file = concatenation of response_data events; '
@@ -128,7 +129,7 @@ PROPERTIES = {
         not_decided=['body == dec(payload) as one end-to-end equation (needs zlib semantics: C19 / bounded stand-in)'],
     ),
     'C09': dict(
-        modules=['filters', 'rule', 'redirect', 'websession', 'itemsession', 'webproc', 'robots', 'httpstream', 'httpclient', 'ftp', 'escape'], level='proof', bounded=['c09_hostile.py'],
+        modules=['filters', 'rule', 'redirect', 'websession', 'itemsession', 'webproc', 'robots', 'httpstream', 'httpclient', 'ftp', 'escape'], level='proof', bounded=['c09_hostile.py', 'c17_session.py'],
         claim='Exception-escape contracts (raises is the complete set of classes that may leave the function; every other class reaching the boundary is the failed '
               'obligation escape[Class]@site, decided through the real class hierarchy of wpull/errors.py) on the HTTP stack -- Stream.read_response, read_body and the '
               'three body readers, ChunkedTransferReader.read_chunk_header/body/trailer, _decompress_data/_flush_decompressor, Response.parse, parse_status_line, '
